@@ -96,12 +96,15 @@ def nontrivial_parked(case, recs):
 KINDS = ["uni_move_atomic", "uni_move_full_sync", "uni_move_crossbeam", "uni_zero_copy_atomic", "uni_zero_copy_full_sync",
          "multi_arc_atomic", "multi_arc_full_sync", "multi_arc_crossbeam", "multi_ogre_arc_atomic", "multi_ogre_arc_full_sync"]
 
-def mk_async(chan, sends, resume):
-    return Case("async chan=%s sends=%d resume=%d ; S" % (chan, sends, resume), None, {"profile": "async", "chan": chan, "sends": sends, "resume": resume})
+def mk_async(chan, sends, resume, parked=0, pre=0):
+    """parked=1: the consumer is a task that parks on Pending and is re-polled only when woken; pre: events already buffered when the
+    asynchronous send starts"""
+    return Case("async chan=%s sends=%d resume=%d parked=%d pre=%d ; S" % (chan, sends, resume, parked, pre), None,
+                {"profile": "async", "chan": chan, "sends": sends, "resume": resume, "parked": parked, "pre": pre})
 
 def parse_async_line(line):
     params = dict(kv.split("=") for kv in line.split(";")[0].split()[1:])
-    return mk_async(params["chan"], int(params["sends"]), int(params["resume"]))
+    return mk_async(params["chan"], int(params["sends"]), int(params["resume"]), int(params.get("parked", 0)), int(params.get("pre", 0)))
 
 def oracle_async(case, recs):
     """while one send_with_async is suspended: the other producer's sends return (within 1.5 s), the length query returns, what was
@@ -115,9 +118,10 @@ def oracle_async(case, recs):
     if not r[40]: return [(None, "the harness produced no result")]
     p_done, n_ok = r[40][0][3], r[40][0][4]
     before = [x[3] for x in r[43]]
+    pre = [50 + j for j in range(case.meta.get("pre", 0))]
     if not p_done: hits.append((CLS, "another producer's plain sends did not return within 1.5 s while a send_with_async was suspended (%d of %d accepted)" % (n_ok, sends)))
     if not r[41][0][3]: hits.append((CLS if chan == "uni_move_full_sync" else None, "the length query did not return while a send_with_async was suspended"))
-    if p_done and sorted(before) != [100 + j for j in range(n_ok)]:
+    if p_done and sorted(before) != pre + [100 + j for j in range(n_ok)]:
         hits.append((None, "events accepted while a send_with_async was suspended were not delivered before its resumption: accepted %d, delivered %s" % (n_ok, before)))
     if 7 in before: hits.append((None, "the suspended send's event was delivered before the send was resumed"))
     res = r[44][0][3] if r[44] else 0
@@ -127,6 +131,6 @@ def oracle_async(case, recs):
         if res != 1: hits.append((None, "the resumed send_with_async did not complete with Ok (code %d)" % res))
         elif 7 not in after: hits.append((None, "the resumed send's event was never delivered (delivered afterwards: %s)" % after))
         allv = before + after
-        if sorted(v for v in allv if v != 7) != [100 + j for j in range(n_ok2)]: hits.append((None, "accepted plain events %d, delivered %s" % (n_ok2, allv)))
+        if sorted(v for v in allv if v != 7) != pre + [100 + j for j in range(n_ok2)]: hits.append((None, "accepted plain events %d, delivered %s" % (n_ok2, allv)))
         if len(set(allv)) != len(allv): hits.append((None, "an event was delivered twice: %s" % allv))
     return hits
